@@ -209,6 +209,16 @@ def c13():
     )
 
 
+def order_queries(nn):
+    qs = []
+    for i, perm in enumerate(itertools.permutations((1, 2, 3, 4, 5))):
+        quick = i % 3 == 0
+        defs = {'VF_P%d' % (k + 1): v for k, v in enumerate(perm)}
+        defs['VF_CLAIM'] = nn
+        qs.append(Q('order_%d%d%d%d%d' % perm, 'C14/order.cpp', 6, tier='quick' if quick else 'thorough', defs=defs, tv=(i % 12 == 0), sanitize=True, timeout=300))
+    return qs
+
+
 @prop('C14')
 def c14():
     qs = []
@@ -220,11 +230,11 @@ def c14():
                 qs.append(Q('list_N%d_op%d_pos%d' % (n, op, pos), 'C14/list.cpp', n + 4, tier='quick' if n <= 3 else 'thorough',
                             defs={'VF_N': n, 'VF_OP': op, 'VF_POS': pos}, tv=(n == 3 and pos == 0)))
     return dict(
-        queries=qs + death_queries(14) + [Q('dtor_order%d' % o, 'C04/dtor.cpp', 10, defs={'VF_ORDER': o, 'VF_CLAIM': 14}, timeout=600) for o in (1, 3)] + plumb_queries(14, (10,)) + [Q('seqgone_%d' % v, 'C14/seqgone.cpp', 6, defs={'VF_V': v, 'VF_CLAIM': 14}, sanitize=True) for v in (0, 1, 2)],
+        queries=qs + death_queries(14) + [Q('dtor_order%d' % o, 'C04/dtor.cpp', 10, defs={'VF_ORDER': o, 'VF_CLAIM': 14}, timeout=600) for o in (1, 3)] + plumb_queries(14, (10,)) + [Q('seqgone_%d' % v, 'C14/seqgone.cpp', 6, defs={'VF_V': v, 'VF_CLAIM': 14}, sanitize=True) for v in (0, 1, 2)] + order_queries(14),
         level='model_checking',
         level_text='Bounded: intrusive list primitives keep the ring invariant at every position of rings up to 4; every short destruction/copy/move/assignment history of a deathwatched object and its requirements, and mock-before-expectation destruction, run without touching freed or dead memory (CBMC pointer checks on every dereference of the IR-derived code).',
-        bound='list rings n<=3 (4), every position, ops {push, unlink, move-ctor, move-assign, list move, dtor}; ' + DEATH_BOUND,
-        outside='tracers, full permutations of mixed populations (P-order of DESIGN.md) are not built yet',
+        bound='list rings n<=3 (4), every position, ops {push, unlink, move-ctor, move-assign, list move, dtor}; every third (quick) / every (thorough) destruction order of {mock, plain expectation, sequenced expectation, sequence, tracer} with probes on the survivors; ' + DEATH_BOUND,
+        outside='populations with several mocks / several tracers; calls that consult a destroyed sequence (recorded known finding seqgone_0)',
     )
 
 
